@@ -55,6 +55,31 @@ def opsSym (op : String) (ins outs : List String) : Option String :=
       let col ← v.d.mapM fun d => d.g[vv]?
       pure (if Deriv.colIn col z then "ok column-enclosed"
             else "FAIL derivative-outside-enclosure")
+  | "jaccolrows", [dag, pt, vv, sel], [z] => do
+    let (funs, main) ← parseProgram dag
+    let p ← parsePoint pt; let vv ← vv.toNat?; let sel ← parseNatList sel
+    match dualEval funs main p with
+    | none => pure "ok undefined-or-kink"
+    | some v =>
+      if z == "E" then pure "FAIL empty-derivative-but-differentiable-at-point" else do
+      let z ← parseMatItv z
+      let col ← sel.mapM fun i => (v.d[i]?).bind fun d => d.g[vv]?
+      pure (if Deriv.colIn col z then "ok column-enclosed"
+            else "FAIL derivative-outside-enclosure")
+  | "hansenrows", [dag, x0, x, sel], [h] => do
+    let (funs, main) ← parseProgram dag
+    let p0 ← parsePoint x0; let p ← parsePoint x; let sel ← parseNatList sel
+    match Eval.root Alg.rat p0 (buildCalls Alg.rat funs) main, Eval.root Alg.rat p (buildCalls Alg.rat funs) main with
+    | some v0, some v =>
+      if h == "E" then pure "FAIL empty-hansen-matrix" else do
+      let H ← parseMatItv h
+      let dx := List.zipWith (· - ·) p p0
+      let vs ← sel.mapM fun i => v.d[i]?
+      let v0s ← sel.mapM fun i => v0.d[i]?
+      if H.r != sel.length then pure "FAIL hansen-matrix-has-the-wrong-number-of-rows" else
+      let ok := Deriv.hansenOk H ⟨sel.length, 1, vs⟩ ⟨sel.length, 1, v0s⟩ dx
+      pure (if ok then (if dx.all (· == 0) then "ok same-point" else "ok slope-enclosed") else "FAIL f(x)-f(x0)-outside-H(x-x0)")
+    | _, _ => pure "ok undefined-or-unsupported"
   | "hansenpt", [dag, x0, x], [h] => do
     let (funs, main) ← parseProgram dag
     let p0 ← parsePoint x0; let p ← parsePoint x
